@@ -140,60 +140,38 @@ Definition build_tfdt (base : N) : bytes := build_box T_tfdt (be32 16777216 ++ b
 
 Definition TRUN_FLAGS := 16777216 + 1 + 256 + 512 + 1024 + 2048.
 
-(* per-sample trun record; [prev] = previous sample's dts, [next] = next sample's dts.
-   None = i64 subtraction overflow for the composition offset (debug panic) *)
-Definition trun_entry (prev next : option N) (s : frag_sample) : option bytes :=
+(* per-sample trun record; [prev] = previous sample's dts, [next] = next sample's dts *)
+Definition trun_entry (prev next : option N) (s : frag_sample) : bytes :=
   let duration := match next with
                   | Some n => u32 (n - fs_dts s)
                   | None => match prev with Some p => u32 (fs_dts s - p) | None => 3000 end
                   end in
-  let d := (as_i64 (fs_pts s) - as_i64 (fs_dts s))%Z in
-  if i64_ok d then
-    Some (be32 duration ++ be32 (len (fs_data s)) ++
-          be32 (if fs_sync s then 33554432 else 16842752) ++ be32 (i32_bits d))
-  else None.
+  be32 duration ++ be32 (len (fs_data s)) ++
+  be32 (if fs_sync s then 33554432 else 16842752) ++
+  be32 (i32_bits (Z.of_N (fs_pts s) - Z.of_N (fs_dts s))).
 
-Fixpoint trun_entries (prev : option N) (l : list frag_sample) : option bytes :=
+Fixpoint trun_entries (prev : option N) (l : list frag_sample) : bytes :=
   match l with
-  | [] => Some []
+  | [] => []
   | s :: t =>
       let next := match t with n :: _ => Some (fs_dts n) | [] => None end in
-      match trun_entry prev next s, trun_entries (Some (fs_dts s)) t with
-      | Some e, Some r => Some (e ++ r)
-      | _, _ => None
-      end
+      trun_entry prev next s ++ trun_entries (Some (fs_dts s)) t
   end.
 
-Definition build_trun (samples : list frag_sample) (data_offset : N) : option bytes :=
-  match trun_entries None samples with
-  | Some es => Some (build_box T_trun (be32 TRUN_FLAGS ++ be32 (len samples) ++ be32 data_offset ++ es))
-  | None => None
-  end.
+Definition build_trun (samples : list frag_sample) (data_offset : N) : bytes :=
+  build_box T_trun (be32 TRUN_FLAGS ++ be32 (len samples) ++ be32 data_offset ++ trun_entries None samples).
 
-Definition build_traf (samples : list frag_sample) (base data_offset : N) : option bytes :=
-  match build_trun samples data_offset with
-  | Some trun => Some (build_box T_traf (build_tfhd ++ build_tfdt base ++ trun))
-  | None => None
-  end.
+Definition build_traf (samples : list frag_sample) (base data_offset : N) : bytes :=
+  build_box T_traf (build_tfhd ++ build_tfdt base ++ build_trun samples data_offset).
 
-Definition build_moof_with_offset (samples : list frag_sample) (seq base data_offset : N) : option bytes :=
-  match build_traf samples base data_offset with
-  | Some traf => Some (build_box T_moof (build_mfhd seq ++ traf))
-  | None => None
-  end.
+Definition build_moof_with_offset (samples : list frag_sample) (seq base data_offset : N) : bytes :=
+  build_box T_moof (build_mfhd seq ++ build_traf samples base data_offset).
 
-Definition build_media_segment (samples : list frag_sample) (seq base : N) : option bytes :=
-  match build_moof_with_offset samples seq base 0 with
-  | None => None
-  | Some moof0 =>
-      let data_offset := u32 (len moof0) + 8 in
-      match build_moof_with_offset samples seq base data_offset with
-      | None => None
-      | Some moof =>
-          Some (moof ++ be32 (8 + sumN (map (fun s => len (fs_data s)) samples)) ++ T_mdat ++
-                concat (map fs_data samples))
-      end
-  end.
+Definition build_media_segment (samples : list frag_sample) (seq base : N) : bytes :=
+  let data_offset := u32 (len (build_moof_with_offset samples seq base 0)) + 8 in
+  build_moof_with_offset samples seq base data_offset ++
+  be32 (8 + sumN (map (fun s => len (fs_data s)) samples)) ++ T_mdat ++
+  concat (map fs_data samples).
 
 (** operations *)
 Inductive fop :=
@@ -221,12 +199,9 @@ Definition f_flush (m : fmuxer) : fmuxer * fres :=
   | [] => (m, FrSeg None)
   | (s0 :: _) as samples =>
       let base := fs_dts s0 in
-      match build_media_segment samples (fm_seq m) base with
-      | None => (m, FrPanic)
-      | Some seg =>
-          ({| fm_config := fm_config m; fm_samples_rev := []; fm_seq := fm_seq m + 1;
-              fm_base := base; fm_init := fm_init m; fm_last_dts := fm_last_dts m |}, FrSeg (Some seg))
-      end
+      ({| fm_config := fm_config m; fm_samples_rev := []; fm_seq := fm_seq m + 1;
+          fm_base := base; fm_init := fm_init m; fm_last_dts := fm_last_dts m |},
+       FrSeg (Some (build_media_segment samples (fm_seq m) base)))
   end.
 
 Definition ticks_to_ms (m : fmuxer) (ticks : N) : N :=
